@@ -344,7 +344,8 @@ theorem registerOne_spec (s s' : P2P) (gh : Ghost) (t0 : TLState) (reqs : List R
     (h : SessInv s gh t0 reqs) (hloc : hd ∈ s.localPlayerHandles) (hreg : s.registerOne hd = .ok s') :
     ∃ gh', SessInv s' gh' t0 reqs ∧ gh'.T = gh.T ∧ s'.sync.currentFrame = s.sync.currentFrame ∧
       s'.handles = s.handles ∧ s'.pred = s.pred ∧ s'.sparse = s.sparse ∧ s'.maxPrediction = s.maxPrediction ∧
-      s'.sync.queues.length = s.sync.queues.length ∧ s'.sync.lastConfirmedFrame = s.sync.lastConfirmedFrame := by
+      s'.sync.queues.length = s.sync.queues.length ∧ s'.sync.lastConfirmedFrame = s.sync.lastConfirmedFrame ∧
+      (∀ p, (gh.specs p).vals.length ≤ (gh'.specs p).vals.length) := by
   unfold P2P.registerOne at hreg
   obtain ⟨pi, _, hreg⟩ := bind_ok hreg
   obtain ⟨r, hadd, hreg⟩ := bind_ok hreg
@@ -380,7 +381,13 @@ theorem registerOne_spec (s s' : P2P) (gh : Ghost) (t0 : TLState) (reqs : List R
       omega
     have hupd := SessInv_update s gh t0 reqs h hd hp q' _ { rget s.localConnectStatus hd with lastFrame := fr }
       hqi hask hnd hst (fun hc => absurd hloc hc)
-    refine ⟨_, SessInv_congr _ s' _ t0 reqs hupd ?_ ?_ ?_ ?_, rfl, ?_, ?_, ?_, ?_, ?_, ?_, ?_⟩
+    refine ⟨_, SessInv_congr _ s' _ t0 reqs hupd ?_ ?_ ?_ ?_, rfl, ?_, ?_, ?_, ?_, ?_, ?_, ?_, ?_⟩
+    rotate_right
+    · intro p
+      show _ ≤ (if p = hd then _ else gh.specs p).vals.length
+      by_cases hpp : p = hd
+      · subst hpp; simp only [if_true]; exact hge
+      · simp only [hpp, if_false]; exact Nat.le_refl _
     · rw [hc2.pred]; show s2.pred = s.pred; rw [hc1.pred]
     · rw [hc2.sync]; show s2.sync = _; rw [hc1.sync]
     · rw [hc2.statuses]; show rset s2.localConnectStatus hd _ = _; rw [hc1.statuses]
@@ -402,9 +409,14 @@ theorem registerOne_spec (s s' : P2P) (gh : Ghost) (t0 : TLState) (reqs : List R
       omega
     have hupd := SessInv_update s gh t0 reqs h hd hp q' _ (rget s.localConnectStatus hd)
       hqi hask hnd hst (fun hc => absurd hloc hc)
-    refine ⟨_, SessInv_congr _ _ _ t0 reqs hupd rfl rfl ?_ rfl, rfl, rfl, rfl, rfl, rfl, rfl, rset_length _ _ _, rfl⟩
-    show s.localConnectStatus = rset s.localConnectStatus hd (rget s.localConnectStatus hd)
-    rw [rset_rget_self _ _ hpst]
+    refine ⟨_, SessInv_congr _ _ _ t0 reqs hupd rfl rfl ?_ rfl, rfl, rfl, rfl, rfl, rfl, rfl, rset_length _ _ _, rfl, ?_⟩
+    · show s.localConnectStatus = rset s.localConnectStatus hd (rget s.localConnectStatus hd)
+      rw [rset_rget_self _ _ hpst]
+    · intro p
+      show _ ≤ (if p = hd then _ else gh.specs p).vals.length
+      by_cases hpp : p = hd
+      · subst hpp; simp only [if_true]; exact hge
+      · simp only [hpp, if_false]; exact Nat.le_refl _
 
 end Ggrs
 
@@ -421,6 +433,7 @@ structure RegKeeps (s s' : P2P) (gh gh' : Ghost) : Prop where
   maxPrediction : s'.maxPrediction = s.maxPrediction
   nq : s'.sync.queues.length = s.sync.queues.length
   lastConfirmed : s'.sync.lastConfirmedFrame = s.sync.lastConfirmedFrame
+  grows : ∀ p, (gh.specs p).vals.length ≤ (gh'.specs p).vals.length
 
 theorem registerFold_spec (t0 : TLState) (reqs : List Request) : ∀ (l : List Nat) (s s' : P2P) (gh : Ghost),
     SessInv s gh t0 reqs → (∀ x ∈ l, x ∈ s.localPlayerHandles) → l.foldlM P2P.registerOne s = .ok s' →
@@ -432,17 +445,18 @@ theorem registerFold_spec (t0 : TLState) (reqs : List Request) : ∀ (l : List N
     simp only [List.foldlM_nil] at hf
     have := pure_ok hf
     subst this
-    exact ⟨gh, h, ⟨rfl, rfl, rfl, rfl, rfl, rfl, rfl, rfl⟩⟩
+    exact ⟨gh, h, ⟨rfl, rfl, rfl, rfl, rfl, rfl, rfl, rfl, fun _ => Nat.le_refl _⟩⟩
   | cons a rest ih =>
     intro s s' gh h hl hf
     simp only [List.foldlM_cons] at hf
     obtain ⟨s1, h1, hf⟩ := bind_ok hf
-    obtain ⟨gh1, hinv1, hT1, hc1, hh1, hp1, hsp1, hm1, hn1, hlc1⟩ :=
+    obtain ⟨gh1, hinv1, hT1, hc1, hh1, hp1, hsp1, hm1, hn1, hlc1, hgr1⟩ :=
       registerOne_spec s s1 gh t0 reqs a h (hl a List.mem_cons_self) h1
     have hlp : s1.localPlayerHandles = s.localPlayerHandles := by unfold P2P.localPlayerHandles; rw [hh1]
     obtain ⟨gh', hinv', hk⟩ := ih s1 s' gh1 hinv1 (fun x hx => by rw [hlp]; exact hl x (List.mem_cons_of_mem _ hx)) hf
     exact ⟨gh', hinv', ⟨hk.T.trans hT1, hk.cur.trans hc1, hk.handles.trans hh1, hk.pred.trans hp1, hk.sparse.trans hsp1,
-      hk.maxPrediction.trans hm1, hk.nq.trans hn1, hk.lastConfirmed.trans hlc1⟩⟩
+      hk.maxPrediction.trans hm1, hk.nq.trans hn1, hk.lastConfirmed.trans hlc1,
+      fun p => Nat.le_trans (hgr1 p) (hk.grows p)⟩⟩
 
 theorem registerLocalInputs_spec (s s' : P2P) (gh : Ghost) (t0 : TLState) (reqs : List Request) (now : Nat)
     (h : SessInv s gh t0 reqs) (hreg : s.registerLocalInputs now = .ok s') :
@@ -453,7 +467,8 @@ theorem registerLocalInputs_spec (s s' : P2P) (gh : Ghost) (t0 : TLState) (reqs 
   have hc := P2P.sendReady_sameCore _ _ _ hsend
   refine ⟨gh', SessInv_congr s1 s' gh' t0 reqs hinv hc.pred hc.sync hc.statuses hc.handles,
     ⟨hk.T, by rw [hc.sync]; exact hk.cur, hc.handles.trans hk.handles, hc.pred.trans hk.pred, hc.sparse.trans hk.sparse,
-     hc.maxPrediction.trans hk.maxPrediction, by rw [hc.sync]; exact hk.nq, by rw [hc.sync]; exact hk.lastConfirmed⟩⟩
+     hc.maxPrediction.trans hk.maxPrediction, by rw [hc.sync]; exact hk.nq, by rw [hc.sync]; exact hk.lastConfirmed,
+     hk.grows⟩⟩
 
 /-- `confirmed_frame` is at most every connected player's last frame. -/
 theorem confirmedFrame_le (s : P2P) (c : Frame) (h : s.confirmedFrame = .ok c)
@@ -606,5 +621,103 @@ theorem SessInv_init (s : P2P) (R : Nat → List (Input × InputStatus)) (n : Na
     rw [hlen] at hp
     rw [hgs p hp]
     exact ⟨rfl, rfl, rfl⟩
+
+end Ggrs
+
+namespace Ggrs
+open InputQueue
+
+/-- The gate, in terms of frames (the two cases of `last_confirmed_frame`). -/
+theorem P2P.C04_window_frames_aux (s s' : P2P) (reqs reqs' : List Request) (h : s.rollbackGate reqs = .ok (s', reqs'))
+    (hadv : s'.sync.currentFrame ≠ s.sync.currentFrame) :
+    (s.sync.lastConfirmedFrame = NULL_FRAME ∧ s.sync.currentFrame < s.maxPrediction) ∨
+    (s.sync.lastConfirmedFrame ≠ NULL_FRAME ∧ s.sync.currentFrame - s.sync.lastConfirmedFrame < s.maxPrediction) := by
+  unfold P2P.rollbackGate at h
+  by_cases hg : s.framesAheadOfConfirmed < (s.maxPrediction : Int)
+  · unfold P2P.framesAheadOfConfirmed at hg
+    by_cases hn : s.sync.lastConfirmedFrame = NULL_FRAME
+    · left; rw [if_pos (by simp [hn])] at hg; exact ⟨hn, hg⟩
+    · right; rw [if_neg (by simpa using hn)] at hg; exact ⟨hn, hg⟩
+  · rw [if_neg hg] at h
+    have := pure_ok h
+    simp only [Prod.mk.injEq] at this
+    rw [← this.1] at hadv
+    exact absurd rfl hadv
+
+
+theorem setLastConfirmed_le (sy sy' : SyncLayer) (f : Frame) (sp : Bool)
+    (h : sy.setLastConfirmedFrame f sp = .ok sy') : sy'.lastConfirmedFrame ≤ f := by
+  unfold SyncLayer.setLastConfirmedFrame at h
+  simp only at h
+  have hle : min (if sp = true then min f sy.lastSavedFrame else f) sy.currentFrame ≤ f := by
+    split
+    · exact Int.le_trans (Int.min_le_left _ _) (Int.min_le_left _ _)
+    · exact Int.min_le_left _ _
+  generalize (min (if sp = true then min f sy.lastSavedFrame else f) sy.currentFrame) = fr at h hle
+  obtain ⟨_, h⟩ := ensure_bind_ok h
+  by_cases hpos : fr > 0
+  · simp only [hpos, if_true] at h
+    obtain ⟨qs, _, h⟩ := bind_ok h
+    have := pure_ok h; subst this
+    exact hle
+  · simp only [hpos, if_false] at h
+    have := pure_ok h; subst this
+    exact hle
+
+/-- **The prediction window, for every reachable session.** If a rollback-mode `advance_frame`
+simulates a new frame `c`, then every player's queue holds real inputs at least up to frame
+`c - max_prediction`: the session never runs more than `max_prediction` frames beyond the newest
+frame for which it holds everybody's input. -/
+theorem window_all (s s' : P2P) (gh : Ghost) (t0 : TLState) (reqs reqs' : List Request) (now : Nat)
+    (h : SessInv s gh t0 reqs) (hadv : s.advanceRollbackFrame now reqs = .ok (s', reqs'))
+    (hnew : s'.sync.currentFrame ≠ s.sync.currentFrame) :
+    ∃ gh', SessInv s' gh' t0 reqs' ∧ ∀ p, p < s.sync.queues.length →
+      s.sync.currentFrame - ((gh'.specs p).vals.length - 1 : Int) ≤ s.maxPrediction := by
+  unfold P2P.advanceRollbackFrame at hadv
+  obtain ⟨confirmed, hconf, hadv⟩ := bind_ok hadv
+  obtain ⟨r1, hrs, hadv⟩ := bind_ok hadv
+  obtain ⟨s1, reqs1⟩ := r1
+  simp only at hadv
+  obtain ⟨s2, hspec, hadv⟩ := bind_ok hadv
+  obtain ⟨sy3, hset, hadv⟩ := bind_ok hadv
+  obtain ⟨s4, hreg, hgate⟩ := bind_ok hadv
+  obtain ⟨gh1, hsettled, _⟩ := handleRollbackAndSave_spec s s1 confirmed t0 reqs reqs1 gh h.tinv h.asked hrs
+  have hinv1 := SessInv_of_settled s s1 gh gh1 t0 reqs reqs1 h hsettled
+  have hc2 := P2P.sendConfirmed_sameCore _ _ _ _ hspec
+  have hinv2 := SessInv_congr s1 s2 gh1 t0 reqs1 hinv1 hc2.pred hc2.sync hc2.statuses hc2.handles
+  have hle : ∀ p, p < s2.sync.queues.length → confirmed ≤ (rget s2.localConnectStatus p).lastFrame := by
+    intro p hp
+    rw [hc2.statuses, hsettled.statuses]
+    apply confirmedFrame_le s confirmed hconf h.tinv.sync.conn
+    rw [h.tinv.sync.nq, ← hsettled.nq, ← hc2.sync]; exact hp
+  obtain ⟨hinv3, hcur3, _, hnq3⟩ := setLastConfirmed_spec s2 sy3 gh1 t0 reqs1 confirmed hinv2 hle hset
+  have hlcf := setLastConfirmed_le _ _ _ _ hset
+  obtain ⟨gh2, hinv4, hk4⟩ := registerLocalInputs_spec _ s4 gh1 t0 reqs1 now hinv3 hreg
+  obtain ⟨gh', hinv', hsp', _, _, _, _⟩ := rollbackGate_spec s4 s' gh2 t0 reqs1 reqs' hinv4 hgate
+  have hcur4 : s4.sync.currentFrame = s.sync.currentFrame := by
+    rw [hk4.cur]; show sy3.currentFrame = _; rw [hcur3, hc2.sync, hsettled.cur]
+  have hmp4 : s4.maxPrediction = s.maxPrediction := by
+    rw [hk4.maxPrediction]; show s2.maxPrediction = _; rw [hc2.maxPrediction, hsettled.rest.2.1]
+  have hnq2 : s2.sync.queues.length = s.sync.queues.length := by rw [hc2.sync, hsettled.nq]
+  -- the gate let a frame through
+  have hgw := P2P.C04_window_frames_aux s4 s' reqs1 reqs' hgate (by rw [hcur4]; exact hnew)
+  refine ⟨gh', hinv', ?_⟩
+  intro p hp
+  rw [hsp']
+  -- everybody's stream reaches the confirmed frame, and the streams only grew since
+  have hp2 : p < s2.sync.queues.length := by rw [hnq2]; exact hp
+  have hstat := hinv2.status p hp2
+  have hconfp := hle p hp2
+  have hla : (rget s2.sync.queues p).lastAddedFrame = ((gh1.specs p).vals.length : Int) - 1 :=
+    lastAdded_of_QI (hinv2.tinv.sync.all p hp2)
+  have hgrow := hk4.grows p
+  have hlcf4 : s4.sync.lastConfirmedFrame = sy3.lastConfirmedFrame := hk4.lastConfirmed
+  rw [hcur4, hmp4, hlcf4] at hgw
+  have hnull : NULL_FRAME = (-1 : Int) := rfl
+  rcases hgw with ⟨hn, hlt⟩ | ⟨hn, hlt⟩
+  · rw [hnull] at hn
+    have : ((gh1.specs p).vals.length : Int) ≥ 0 := Int.natCast_nonneg _
+    omega
+  · omega
 
 end Ggrs
